@@ -1,16 +1,17 @@
 import RoaringModel.Lemmas.TreemapIterAdvance
 import RoaringModel.Lemmas.TreemapIntoIter
+import RoaringModel.Lemmas.TreemapIter32
 import RoaringModel.SpecCursor64
 /-!
 # C12 — 64-bit iteration is an exact ascending double-ended cursor (property theorems)
 
 The model of `treemap::Iter` (TreemapIter.lean) is parametrised by the inner 32-bit iterator `K : Inner`.
-All theorems hold for **every** `K` that satisfies the C03 cursor specification `S : InnerSpec K`
+The `_partial` theorems hold for **every** `K` that satisfies the C03 cursor specification `S : InnerSpec K`
 (`rem`/`Inv` with `next = pop front`, `next_back = pop back`, `advance_to n = filter (n ≤ ·)`,
-`advance_back_to n = filter (· ≤ n)`, exact `size_hint`) — that is the only hypothesis, hence `_partial`:
-the gap is the instantiation of `S` with the mirrored `bitmap::Iter` model and the C03 theorems (family
-iter32, at merge).  `InnerSpec.list` below shows the hypothesis is satisfiable (the list cursor the driver
-runs).  The abstraction is `Iter.rem = rem front ++ values of the untouched partitions ++ rem back`.
+`advance_back_to n = filter (· ≤ n)`, exact `size_hint`).  The theorems without suffix (`C12_init`, `C12_step`,
+`C12_sizeHint`, `C12_history`, `C12_intoIter`) are **unconditional**: they are about `K32 = Inner.iter32`, the
+mirrored `bitmap::Iter` / `bitmap::IntoIter` model the driver runs, with `S32 = InnerSpec.iter32` proved from
+the C03 theorems (Lemmas/TreemapIter32.lean), for every treemap whose partitions are `Bitmap.WF` (`TWF`).  The abstraction is `Iter.rem = rem front ++ values of the untouched partitions ++ rem back`.
 -/
 namespace Roaring.C12
 open Roaring Roaring.TL Roaring.Treemap Roaring.TIter
@@ -102,6 +103,47 @@ theorem C12_intoIter_partial (t : Treemap) (hw : WFd S.WF t) :
   ⟨(IntoIter.new_spec S hw).1, (IntoIter.new_spec S hw).2, fun it h =>
     ⟨IntoIter.next_spec S it h, IntoIter.nextBack_spec S it h, IntoIter.sizeHint_spec S it h⟩⟩
 
+/-! ### unconditional forms: the mirrored 32-bit iterator as the inner cursor -/
+
+/-- the inner cursor of the executable model: the mirrored `bitmap::Iter` / `bitmap::IntoIter` (Iter.lean) -/
+abbrev K32 : Inner := Inner.iter32
+/-- the C03 cursor laws for it, proved from `C03_init` / `C03_step` -/
+abbrev S32 : InnerSpec K32 := InnerSpec.iter32
+
+/-- `iter()` starts as a cursor over all values of the treemap. -/
+theorem C12_init (t : Treemap) (hw : TWF t) :
+    (TIter.Iter.new (K := K32) t).Inv S32 ∧ (TIter.Iter.new (K := K32) t).rem S32 = elems t :=
+  C12_init_partial S32 t hw
+
+/-- Every call acts on the remaining values exactly as the specification cursor does (see `C12_step_partial`),
+    for all iterator states and all `u64` arguments. -/
+theorem C12_step (it : TIter.Iter K32) (h : it.Inv S32) (op : ItOp) (hv : op.Valid) :
+    (stepM it op).1.Inv S32 ∧ (stepM it op).1.rem S32 = (stepS (it.rem S32) op).1 ∧
+      (stepM it op).2 = (stepS (it.rem S32) op).2 := C12_step_partial S32 it h op hv
+
+/-- `size_hint()` is exact in both components. -/
+theorem C12_sizeHint (it : TIter.Iter K32) (h : it.Inv S32) (hfit : (it.rem S32).length ≤ TIter.usizeMax) :
+    it.sizeHint = Spec.Cursor64.sizeHint (it.rem S32) := C12_sizeHint_partial S32 it h hfit
+
+/-- Any interleaving of calls on `iter()` of a well-formed treemap returns exactly what the specification
+    cursor over its sorted values returns, and leaves exactly the specified remaining values. -/
+theorem C12_history (t : Treemap) (hw : TWF t) (ops : List ItOp) (hv : ∀ op ∈ ops, op.Valid) :
+    (runM (TIter.Iter.new (K := K32) t) ops).1.Inv S32 ∧
+    (runM (TIter.Iter.new (K := K32) t) ops).1.rem S32 = (runS (elems t) ops).1 ∧
+    (runM (TIter.Iter.new (K := K32) t) ops).2 = (runS (elems t) ops).2 := C12_history_partial S32 t hw ops hv
+
+/-- `into_iter()`: starts on all values; `next` / `next_back` pop the two ends; exact `size_hint()`. -/
+theorem C12_intoIter (t : Treemap) (hw : TWF t) :
+    (IntoIter.new (K := K32) t).Inv S32 ∧ (IntoIter.new (K := K32) t).rem S32 = elems t ∧
+    (∀ it : IntoIter K32, it.Inv S32 →
+      (it.next.1.Inv S32 ∧ it.next.1.rem S32 = (Spec.Cursor64.next (it.rem S32)).1 ∧
+        it.next.2 = (Spec.Cursor64.next (it.rem S32)).2) ∧
+      (it.nextBack.1.Inv S32 ∧ it.nextBack.1.rem S32 = (Spec.Cursor64.nextBack (it.rem S32)).1 ∧
+        it.nextBack.2 = (Spec.Cursor64.nextBack (it.rem S32)).2) ∧
+      ((it.rem S32).length < TIter.usizeMax →
+        it.sizeHintPair = (Spec.Cursor64.sizeHint (it.rem S32), some (Spec.Cursor64.sizeHint (it.rem S32))))) :=
+  C12_intoIter_partial S32 t hw
+
 /-- `bitmaps()` yields the partitions in key order from the front and in reverse from the back. -/
 theorem C12_bitmaps (t : Treemap) :
     (PIter.new t).range = t ∧
@@ -131,5 +173,19 @@ example : elems tEx = [1, 5, 8589934595, 8589934642, 17179869191] := by decide
 
 /-- the first D5 shape, on the model: `advance_to(2^32+10)` keeps `2^33+3` -/
 example : ((TIter.Iter.new (K := Inner.list) tEx).advanceTo 4294967306).next.2 = some 8589934595 := by decide
+
+/-- the same treemap meets the hypothesis of the unconditional theorems … -/
+theorem tEx_TWF : TWF tEx := by
+  refine ⟨by decide, ?_⟩
+  intro p hp
+  simp only [tEx, List.mem_cons, List.not_mem_nil, or_false] at hp
+  rcases hp with rfl | rfl | rfl <;>
+    exact ⟨by decide, ⟨by decide, by
+      intro c hc
+      simp only [bEx, List.mem_cons, List.not_mem_nil, or_false] at hc
+      subst hc
+      exact ⟨by decide, ⟨by unfold Roaring.Sorted; decide, by decide⟩, by decide, by decide⟩⟩, by decide⟩
+/-- … and the same call on the mirrored 32-bit iterator -/
+example : ((TIter.Iter.new (K := K32) tEx).advanceTo 4294967306).next.2 = some 8589934595 := by decide
 
 end Roaring.C12
